@@ -735,6 +735,25 @@ func cmdCheck(prop, tier string) int {
 		br = &batch{sigs: map[uint64]struct{}{}}
 	}
 
+	// determinism spot check on every invocation: the same 24 runs in two fresh
+	// processes must produce identical per-run trace hashes
+	detRuns, detMismatch := 0, 0
+	{
+		tcd := tc
+		tcd.Deadline = 120
+		d1 := runWorkers(binPlain, dir, prop, seed, 24, tcd, 1, false, "", true)
+		d2 := runWorkers(binPlain, dir, prop, seed, 24, tcd, 1, false, "", true)
+		if len(d1.results) == 1 && len(d2.results) == 1 {
+			for k, h := range d1.results[0].Hashes {
+				detRuns++
+				if d2.results[0].Hashes[k] != h {
+					detMismatch++
+					fmt.Printf("NONDETERMINISM run %s: %s vs %s\n", k, h, d2.results[0].Hashes[k])
+				}
+			}
+		}
+	}
+
 	// aggregate
 	agg := &workerResult{PerFamily: map[string]int64{}, Faults: map[string]int64{}, Reach: map[string]int64{}, Outcomes: map[string]int64{}, Configs: map[string]int64{}}
 	var viols []violOut
@@ -986,6 +1005,7 @@ func cmdCheck(prop, tier string) int {
 			"harness_errors":       len(herrs),
 			"replay_files_written": replayPaths,
 			"counter_groups":       agg.Extra,
+			"determinism_selftest": map[string]int{"runs_executed_twice_in_fresh_processes": detRuns, "trace_hash_mismatches": detMismatch},
 		},
 		"assumptions": pc.Assume,
 	}
@@ -994,6 +1014,12 @@ func cmdCheck(prop, tier string) int {
 	os.WriteFile(filepath.Join(verifDir, "evidence", prop+".json"), data, 0644)
 	fmt.Printf("SUMMARY property=%s tier=%s runs=%d distinct_nontrivial=%d violations_new=%d known=%d wall=%.1fs (build %.1fs)\n", prop, tier, agg.Evaluations, len(sigs), newViol+fatalViols, len(knownSeen), wall, buildS)
 
+	if detMismatch > 0 {
+		fmt.Println("HARNESS-ERROR the simulation is not deterministic on this tree (see NONDETERMINISM lines): the code under test or the harness draws on a source the simulator does not own")
+		if newViol+fatalViols == 0 {
+			return 2
+		}
+	}
 	if len(herrs) > 0 || len(crashes) > 0 {
 		for i, h := range herrs {
 			if i < 5 {
